@@ -1,12 +1,22 @@
 #!/venv/bin/python
-"""tools/run_seeds.py [ID ...] : apply every kept seeded change to /repo in turn, run the quick check of
-its property, undo, and print the detection matrix (also written to out/seed_matrix.json)."""
-import glob, json, os, subprocess, sys
-import fcntl
-_lock = open("/tmp/verif-repo.lock", "w")
-fcntl.flock(_lock, fcntl.LOCK_EX)
-want = set(a.upper() for a in sys.argv[1:])
-rows = []
+"""tools/run_seeds.py [-j N] [ID ...] : run the quick check of its property against every kept seeded
+change and print the detection matrix (also written to out/seed_matrix.json; each meta.json's
+check_exit/detected/detected_by is brought up to date, `missed_by_first_version` is never cleared).
+
+-j 1 (default): apply to /repo in turn, run, undo (git -C /repo apply / checkout -- .), under the repo lock.
+-j N: N scratch worktrees of /repo's HEAD under /tmp (removed afterwards), checks run with
+      VERIF_REPO=<worktree>; evidence of those runs goes to out/evidence-alt, never to evidence/."""
+import argparse, glob, json, os, shutil, subprocess, sys, fcntl
+from concurrent.futures import ThreadPoolExecutor
+import queue
+
+ap = argparse.ArgumentParser()
+ap.add_argument("-j", type=int, default=1)
+ap.add_argument("ids", nargs="*")
+a = ap.parse_args()
+want = set(x.upper() for x in a.ids)
+
+seeds = []
 for d in sorted(glob.glob("/verif/seeded/*/")):
     mp = os.path.join(d, "meta.json")
     if not os.path.exists(mp):
@@ -17,20 +27,74 @@ for d in sorted(glob.glob("/verif/seeded/*/")):
         continue
     if "NEUTRALISED" in d or m.get("status", "").startswith("not kept"):
         continue
-    patch = os.path.join(d, "patch.diff")
-    if subprocess.run(["git", "-C", "/repo", "diff", "--quiet"]).returncode != 0:
-        print("/repo dirty"); sys.exit(2)
-    if subprocess.run(["git", "-C", "/repo", "apply", patch]).returncode != 0:
-        rows.append((os.path.basename(d.rstrip("/")), pid, "PATCH DOES NOT APPLY", ""))
-        continue
+    seeds.append((d, mp, m, pid))
+
+
+def judge(d, mp, m, pid, p, cmd):
+    out = p.stdout
+    sig = [l.strip()[len("signature: "):] for l in out.splitlines() if l.strip().startswith("signature:")]
+    viol = any(l.startswith("VIOLATION") for l in out.splitlines())
+    det = viol and p.returncode == 1
+    if m.get("detected") is False and det:
+        m["missed_by_first_version"] = True
+    m.update({"ran": cmd, "check_exit": p.returncode, "detected": bool(det), "detected_by": sig[:5]})
+    json.dump(m, open(mp, "w"), indent=1)
+    row = (os.path.basename(d.rstrip("/")), pid, "detected" if det else f"MISSED (rc={p.returncode})", sig[0] if sig else "")
+    print(row, flush=True)
+    return row
+
+
+rows = []
+if a.j <= 1:
+    _lock = open("/tmp/verif-repo.lock", "w")
+    fcntl.flock(_lock, fcntl.LOCK_EX)
+    for d, mp, m, pid in seeds:
+        patch = os.path.join(d, "patch.diff")
+        if subprocess.run(["git", "-C", "/repo", "diff", "--quiet"]).returncode != 0:
+            print("/repo dirty"); sys.exit(2)
+        if subprocess.run(["git", "-C", "/repo", "apply", patch]).returncode != 0:
+            rows.append((os.path.basename(d.rstrip("/")), pid, "PATCH DOES NOT APPLY", "")); print(rows[-1]); continue
+        try:
+            p = subprocess.run(["./check", pid, "--tier", "quick"], cwd="/verif", capture_output=True, text=True)
+        finally:
+            subprocess.run(["git", "-C", "/repo", "checkout", "--", "."])
+        rows.append(judge(d, mp, m, pid, p, f"tools/with_patch.sh seeded/{os.path.basename(d.rstrip('/'))}/patch.diff ./check {pid} --tier quick"))
+else:
+    wts = queue.Queue()
+    made = []
+    for i in range(a.j):
+        wt = f"/tmp/wt-seedrun-{i}"
+        subprocess.run(["git", "-C", "/repo", "worktree", "remove", "--force", wt], capture_output=True)
+        assert subprocess.run(["git", "-C", "/repo", "worktree", "add", "--detach", wt, "HEAD"], capture_output=True).returncode == 0
+        made.append(wt); wts.put(wt)
+
+    def one(s):
+        d, mp, m, pid = s
+        wt = wts.get()
+        try:
+            patch = os.path.join(d, "patch.diff")
+            if subprocess.run(["git", "-C", wt, "apply", patch]).returncode != 0:
+                row = (os.path.basename(d.rstrip("/")), pid, "PATCH DOES NOT APPLY", ""); print(row); return row
+            try:
+                p = subprocess.run(["./check", pid, "--tier", "quick"], cwd="/verif", capture_output=True, text=True,
+                                   env=dict(os.environ, VERIF_REPO=wt))
+            finally:
+                subprocess.run(["git", "-C", wt, "checkout", "--", "."])
+                subprocess.run(["git", "-C", wt, "clean", "-fdq"])
+            return judge(d, mp, m, pid, p, f"VERIF_REPO=<worktree with seeded/{os.path.basename(d.rstrip('/'))}/patch.diff> ./check {pid} --tier quick")
+        finally:
+            wts.put(wt)
     try:
-        p = subprocess.run(["./check", pid, "--tier", "quick"], cwd="/verif", capture_output=True, text=True)
+        with ThreadPoolExecutor(a.j) as ex:
+            rows = list(ex.map(one, seeds))
     finally:
-        subprocess.run(["git", "-C", "/repo", "checkout", "--", "."])
-    sig = [l.strip()[len("signature: "):] for l in p.stdout.splitlines() if l.strip().startswith("signature:")]
-    viol = any(l.startswith("VIOLATION") for l in p.stdout.splitlines())
-    rows.append((os.path.basename(d.rstrip("/")), pid, "detected" if viol and p.returncode == 1 else f"MISSED (rc={p.returncode})", sig[0] if sig else ""))
-    print(rows[-1], flush=True)
+        import hashlib
+        for wt in made:
+            subprocess.run(["git", "-C", "/repo", "worktree", "remove", "--force", wt], capture_output=True)
+            shutil.rmtree("/tmp/verif-cargo-" + hashlib.sha1(os.path.realpath(wt).encode()).hexdigest()[:10], ignore_errors=True)
+            shutil.rmtree(f"/verif/out/evidence-alt/{os.path.basename(wt)}", ignore_errors=True)
+            shutil.rmtree(f"/verif/out/replay-alt/{os.path.basename(wt)}", ignore_errors=True)
+        subprocess.run(["git", "-C", "/repo", "worktree", "prune"])
 os.makedirs("/verif/out", exist_ok=True)
 json.dump(rows, open("/verif/out/seed_matrix.json", "w"), indent=1)
 print(f"{sum(1 for r in rows if r[2]=='detected')}/{len(rows)} detected")
